@@ -17,10 +17,19 @@ struct async_worker_s {
     pthread_t thread;
     async_worker_proc_t proc;
     void* context;
-    volatile async_worker_state_t state;
+    int state;  /* async_worker_state_t; written by the worker thread and read by others: use the accessors below */
     bool thread_created;
     platform_event_t stop_event;
 };
+
+/* The state field is shared between the worker thread and its owner: access it atomically */
+static inline async_worker_state_t worker_load_state(const async_worker_t* worker) {
+    return (async_worker_state_t)__atomic_load_n(&worker->state, __ATOMIC_ACQUIRE);
+}
+
+static inline void worker_store_state(async_worker_t* worker, async_worker_state_t state) {
+    __atomic_store_n(&worker->state, (int)state, __ATOMIC_RELEASE);
+}
 
 /* Thread-local storage for current worker */
 static __thread async_worker_t* tls_current_worker = NULL;
@@ -30,11 +39,10 @@ static void* worker_thread_proc(void* param) {
     async_worker_t* worker = (async_worker_t*)param;
     tls_current_worker = worker;
     
-    worker->state = ASYNC_WORKER_RUNNING;
-    
+    /* state is already ASYNC_WORKER_RUNNING (set by async_worker_create before the thread exists) */
     void* result = worker->proc(worker->context);
     
-    worker->state = ASYNC_WORKER_STOPPED;
+    worker_store_state(worker, ASYNC_WORKER_STOPPED);
     tls_current_worker = NULL;
     
     return result;
@@ -48,7 +56,9 @@ async_worker_t* async_worker_create(async_worker_proc_t proc, void* context, siz
     
     worker->proc = proc;
     worker->context = context;
-    worker->state = ASYNC_WORKER_STOPPED;
+    /* The worker counts as running from the moment it is created: a timed async_worker_join()
+     * issued before the new thread got scheduled must poll, not fall through to pthread_join(). */
+    worker_store_state(worker, ASYNC_WORKER_RUNNING);
     worker->thread_created = false;
     
     if (!platform_event_init(&worker->stop_event, true, false)) {
@@ -110,12 +120,12 @@ bool async_worker_join(async_worker_t* worker, int timeout_ms) {
         struct timespec sleep_time = { 0, 10000000 };  /* 10ms */
         int elapsed_ms = 0;
         
-        while (worker->state != ASYNC_WORKER_STOPPED && elapsed_ms < timeout_ms) {
+        while (worker_load_state(worker) != ASYNC_WORKER_STOPPED && elapsed_ms < timeout_ms) {
             nanosleep(&sleep_time, NULL);
             elapsed_ms += 10;
         }
         
-        if (worker->state == ASYNC_WORKER_STOPPED) {
+        if (worker_load_state(worker) == ASYNC_WORKER_STOPPED) {
             pthread_join(worker->thread, NULL);
             return true;
         }
@@ -134,7 +144,7 @@ bool async_worker_should_stop(async_worker_t* worker) {
 }
 
 async_worker_state_t async_worker_get_state(const async_worker_t* worker) {
-    return worker ? worker->state : ASYNC_WORKER_STOPPED;
+    return worker ? worker_load_state(worker) : ASYNC_WORKER_STOPPED;
 }
 
 platform_event_t* async_worker_get_stop_event(async_worker_t* worker) {
